@@ -307,27 +307,58 @@ func judge(res *kit.Result, exp []xblk, act []ablk, tablesOff bool) {
 		for k < len(es) && k < len(as) && es[k] == as[k] {
 			k++
 		}
-		top := 0
+		suf := 0
+		for suf < len(es) && suf < len(as) && es[len(es)-1-suf] == as[len(as)-1-suf] {
+			suf++
+		}
+		// the differing region of the expected text under every minimal explanation: an insertion such as
+		// "&" "alpha" -> "&amp;alpha" may sit at offset 1 (after "&") or 2 (inside "alpha"); all blocks touching
+		// [lo,hi] are named, so that the attribution does not depend on which explanation a prefix scan happens to pick
+		lo, hi := k, len(es)-suf
+		if lo > hi {
+			lo, hi = hi, lo
+		}
+		t0, t1 := -1, -1
 		for i, o := range offs {
-			if o <= k {
-				top = exp[i].top
+			end := esb.Len()
+			if i+1 < len(offs) {
+				end = offs[i+1]
+			}
+			touches := o < hi && end > lo // a non-empty stretch of expected text [lo,hi) that the document lacks or alters
+			if k >= len(es)-suf {         // nothing expected is missing: an insertion somewhere in [lo,hi]
+				touches = o <= hi && end >= lo
+			}
+			if touches {
+				if t0 < 0 || exp[i].top < t0 {
+					t0 = exp[i].top
+				}
+				if exp[i].top > t1 {
+					t1 = exp[i].top
+				}
 			}
 		}
-		lo := k - 20
-		if lo < 0 {
-			lo = 0
+		if t0 < 0 {
+			t0, t1 = 0, 0
+		}
+		at := "@" + itoa(t0)
+		if t1 != t0 {
+			at += "-" + itoa(t1)
+		}
+		from := k - 20
+		if from < 0 {
+			from = 0
 		}
 		cut := func(s string) string {
-			hi := k + 30
-			if hi > len(s) {
-				hi = len(s)
+			to := k + 30
+			if to > len(s) {
+				to = len(s)
 			}
-			if lo > len(s) {
+			if from > len(s) {
 				return ""
 			}
-			return strings.ToValidUTF8(s[lo:hi], "?")
+			return strings.ToValidUTF8(s[from:to], "?")
 		}
-		res.Fail("C19.M1", "@%d visible text differs at offset %d: expected …%q…, document has …%q…", top, k, cut(es), cut(as))
+		res.Fail("C19.M1", "%s visible text differs at offset %d: expected …%q…, document has …%q…", at, k, cut(es), cut(as))
 	}
 
 	// ---- M2..M6: aligned walk
